@@ -129,12 +129,14 @@ func execute(t *testing.T, sc *Scenario, tier string, gen, sched, fault *simrt.T
 		rc.Viols = nil
 		// ... except that a task of the code under test spinning forever is itself
 		// a violation of the liveness properties.
-		if res.Aborted == "livelock" && sc.LivelockIsViolation {
+		// (a run can also end on its step budget with one task having spun through
+		// more than half of it)
+		if (res.Aborted == "livelock" || res.Aborted == "steps") && sc.LivelockIsViolation {
 			// (the task itself must have passed that many scheduling points since
 			// it last blocked: the budget is one counter for the whole run, and the
 			// task that happened to exhaust it need not be the one that spins)
 			for _, a := range res.Alive {
-				if a.Kind == "repo" && a.Spin > sc.MaxSteps {
+				if a.Kind == "repo" && (a.Spin > sc.MaxSteps || (res.Aborted == "steps" && a.Spin > sc.MaxSteps/2)) {
 					rc.Muted = false
 					rc.Failf("livelock:"+funcOf(a.Created), "task %d of the code under test (created in %s) went through %d scheduling points without ever blocking: it spins at %s", a.ID, a.Created, a.Spin, a.Where)
 					break
